@@ -116,7 +116,7 @@ CONTROLS = {
         ("L7: block_until_zero neutralised", [("nomt::beatree::Tree::prepare_sync", neutralise_call("block_until_zero"))], "L7|"),
     ],
     "C17": [
-        ("W1: hash-table writer renamed (a writer in an unlisted function)", [("nomt::bitbox::writeout::write_ht", rename("nomt::bitbox::writeout::write_ht_elsewhere"))], "W1|"),
+        ("W1: hash-table writer moved to another module", [("nomt::bitbox::writeout::write_ht", rename("nomt::merkle::write_ht"))], "W1|"),
         ("W3: free-list mutator called from allocate", [("nomt::beatree::allocator::SyncAllocator::allocate", neutralise_call("FreeList::as_clean", 0, "nomt::beatree::allocator::free_list::FreeList::pop"))], "W3|"),
     ],
     "C18": [
